@@ -71,6 +71,10 @@ func (t *websocketTransport) Send(ctx context.Context, e envelope) error {
 		// Effectively fails all pending write operations before returning.
 		// Note that this makes the encoder to be in a permanent error state.
 		_ = t.conn.SetWriteDeadline(time.Now())
+		// The write deadline of the websocket connection is only taken into account by the next
+		// write operation, so the deadline of the underlying connection is also set, for
+		// interrupting a write that is blocked (when the remote party is not reading).
+		_ = t.conn.UnderlyingConn().SetWriteDeadline(time.Now())
 		<-errChan
 		return fmt.Errorf("ws transport: send: %w", ctx.Err())
 	case err := <-errChan:
